@@ -362,31 +362,14 @@ def run(ctx, report):
     R10 = report.rule('C09.D10', 'AT&T immediates are typed with the operand size the mnemonic suffix or the other operands give (arg_set_numpy_imm evaluated)', floor=5)
     asn = arch.method('x86_mn', 'arg_set_numpy_imm')
 
-    class _Tag(object):
-        def __init__(self, size):
-            self.size = size
-            self.limit = {afs.u08: 1 << 8, afs.u16: 1 << 16, afs.u32: 1 << 32}.get(size, 1 << 32)
-
-        def __call__(self, v):
-            return ('TYPED', self.size, v)
-    tagtab = dict((k_, _Tag(k_)) for k_ in (afs.u08, afs.u16, afs.u32))
     cases10 = [('pushw $0xffff (size mark u16 from the suffix)', [{afs.imm: 0xffff, afs.size: afs.u16, afs.ad: False}], afs.u16),
                ('pushl $5', [{afs.imm: 5, afs.size: afs.u32, afs.ad: False}], afs.u32),
                ('addw $-1, %ax', [{0: 1, afs.size: afs.u16, afs.ad: False}, {afs.imm: -1, afs.size: afs.u32, afs.ad: False}], afs.u16),
                ('addb $1, %al', [{0: 1, afs.size: afs.u08, afs.ad: False}, {afs.imm: 1, afs.size: afs.u32, afs.ad: False}], afs.u08),
                ('movl $1, %eax', [{0: 1, afs.size: afs.u32, afs.ad: False}, {afs.imm: 1, afs.size: afs.u32, afs.ad: False}], afs.u32)]
     for label, args10, want in cases10:
-        a10 = [dict(x_) for x_ in args10]
-        scope = dict((k_, v_) for k_, v_ in E.items() if isinstance(v_, (str, int, bool, list, tuple, dict)) or v_ is None)
-        scope.update({'x86_afs': afs, 'tab_size2int': dict((k_, Native(v_)) for k_, v_ in tagtab.items()), 'mm': afs.mm, 'xmm': afs.xmm,
-                      'int32': Native(lambda v: ('TYPED', 'int32', v)), 'uint32': Native(lambda v: v)})
-        for k_, v_ in tagtab.items():
-            scope['tab_size2int'][k_].attrs = {'limit': v_.limit}
-        for fname_, fnode_ in arch.funcs.items():
-            scope.setdefault(fname_, fnode_)
-        ev10 = Evaluator(scope)
         try:
-            ev10.call_user(asn, [Obj('cls'), a10])
+            a10 = numpy_imm_eval(ctx, args10)
         except NotConst as e:
             raise AnalysisError('arg_set_numpy_imm is outside the evaluable subset on %s: %s' % (label, e))
         imm_ = [x_[afs.imm] for x_ in a10 if afs.imm in x_][0]
@@ -397,6 +380,33 @@ def run(ctx, report):
             R10.violation(inst, 'imm-type:%s' % label.split()[0], '%s: the immediate is typed %s, the operand size is %s: encodings of that size (sign-extended imm8) are not offered'
                           % (label, imm_[1] if isinstance(imm_, tuple) else type(imm_).__name__, want), where(arch, asn), witness="asm_att('pushw $65535') lacks 66 6a ff")
 
+
+def numpy_imm_eval(ctx, args10):
+    """arg_set_numpy_imm evaluated on an operand list (copied); returns the list after the call.  Immediates it typed are ('TYPED', size token | 'int32', value)."""
+    from ..x86table import model as x86model
+    from ..consteval import Evaluator, Obj, Native
+    X = x86model(ctx)
+    arch, E, afs = X.arch, X.env, X.afs
+    asn = arch.method('x86_mn', 'arg_set_numpy_imm')
+
+    class _Tag(object):
+        def __init__(self, size):
+            self.size = size
+            self.limit = {afs.u08: 1 << 8, afs.u16: 1 << 16, afs.u32: 1 << 32}.get(size, 1 << 32)
+
+        def __call__(self, v):
+            return ('TYPED', self.size, v)
+    tagtab = dict((k_, _Tag(k_)) for k_ in (afs.u08, afs.u16, afs.u32))
+    a10 = [dict(x_) for x_ in args10]
+    scope = dict((k_, v_) for k_, v_ in E.items() if isinstance(v_, (str, int, bool, list, tuple, dict)) or v_ is None)
+    scope.update({'x86_afs': afs, 'tab_size2int': dict((k_, Native(v_)) for k_, v_ in tagtab.items()), 'mm': afs.mm, 'xmm': afs.xmm,
+                  'int32': Native(lambda v: ('TYPED', 'int32', v)), 'uint32': Native(lambda v: v)})
+    for k_, v_ in tagtab.items():
+        scope['tab_size2int'][k_].attrs = {'limit': v_.limit}
+    for fname_, fnode_ in arch.funcs.items():
+        scope.setdefault(fname_, fnode_)
+    Evaluator(scope).call_user(asn, [Obj('cls'), a10])
+    return a10
 
 
 MUTANTS = [
